@@ -697,6 +697,9 @@ func (w *mtWorkload) compare(br *rig.BlockRecord, tx *rig.TxRecord, s *mtSnap) {
 }
 
 func runMT(run *ev.Run, c int) {
+	if c%8 == 0 {
+		mtGenesisBattery(run, c)
+	}
 	w := newMTWorkload()
 	r := rig.New(rig.Options{Seed: fmt.Sprintf("mt-%d-%d", run.Seed, c), NumAccounts: 5, Balances: sdk.NewCoins(sdk.NewInt64Coin(rig.BondDenom, 1_000_000)), InflationOff: true, SubSecond: c%2 == 1})
 	w.Attach(run, r)
@@ -713,4 +716,83 @@ func runMT(run *ev.Run, c int) {
 	for _, n := range []string{"mt-mint-new-ok", "mt-mint-existing-ok", "mt-transfer-ok", "mt-burn-ok", "mt-edit-ok", "mt-transfer-class-ok", "hostile-mint-rejected", "hostile-transfer-rejected", "hostile-burn-rejected", "hostile-edit-rejected", "hostile-handover-rejected", "overflow-mint-rejected"} {
 		run.Require(n, 1)
 	}
+}
+
+// mtGenesisBattery: chains born from genesis files whose balances and recorded supplies agree, disagree, or agree only
+// modulo 2^64. A file the application refuses is fine; on every chain that does start, the balances of each multi-token
+// have to add up (in exact arithmetic) to its recorded supply, and a burn must lower both by the same amount.
+func mtGenesisBattery(run *ev.Run, c int) {
+	type holding struct {
+		acc int
+		amt uint64
+	}
+	top := uint64(1) << 63
+	cases := []struct {
+		name   string
+		supply uint64
+		hold   []holding
+	}{
+		{"consistent", 1000, []holding{{0, 400}, {1, 600}}},
+		{"consistent-at-the-top", math.MaxUint64, []holding{{0, top}, {1, top - 1}}},
+		{"sum-wraps-onto-the-supply", 7, []holding{{0, top}, {1, top}, {2, 7}}},
+		{"sum-wraps-to-a-small-supply", 4, []holding{{0, math.MaxUint64}, {1, 5}}},
+		{"supply-above-the-balances", 1001, []holding{{0, 400}, {1, 600}}},
+		{"supply-below-the-balances", 999, []holding{{0, 400}, {1, 600}}},
+		{"one-holder-listed-twice", 1000, []holding{{0, 400}, {0, 600}}},
+	}
+	for ci, gc := range cases {
+		opts := rig.Options{Seed: fmt.Sprintf("mtgen-%d-%d-%d", run.Seed, c, ci), NumAccounts: 5, Balances: sdk.NewCoins(sdk.NewInt64Coin(rig.BondDenom, 1_000_000)), InflationOff: true, NoInit: true}
+		var b *rig.Rig
+		opts.GenesisMutator = func(cdc codec.Codec, gs map[string]json.RawMessage) {
+			den := mttypes.Denom{Id: "genesisclass", Name: "born in genesis", Owner: b.Acc(0).Addr.String()}
+			g := mttypes.GenesisState{Collections: []mttypes.Collection{{Denom: &den, Mts: []mttypes.MT{{Id: "tok", Supply: gc.supply, Data: []byte("d")}}}}}
+			for _, h := range gc.hold {
+				g.Owners = append(g.Owners, mttypes.Owner{Address: b.Acc(h.acc).Addr.String(), Denoms: []mttypes.DenomBalance{{DenomId: den.Id, Balances: []mttypes.Balance{{MtId: "tok", Amount: h.amt}}}}})
+			}
+			gs[mttypes.ModuleName] = cdc.MustMarshalJSON(&g)
+		}
+		b = rig.New(opts)
+		bz, _ := json.Marshal(b.BuildGenesis())
+		run.Eval(1)
+		if err := b.TryInitChain(bz, 1, b.Opts.GenesisTime); err != nil {
+			run.Class("genesis", gc.name, "refused")
+			run.Count("mt-genesis-refused:"+gc.name, 1)
+			continue
+		}
+		if br := b.DeliverBlock(time.Second, nil); br.FinalErr != nil {
+			run.Class("genesis", gc.name, "first-block-fails")
+			continue
+		}
+		run.Class("genesis", gc.name, "started")
+		run.Count("mt-genesis-started:"+gc.name, 1)
+		w := newMTWorkload()
+		w.Attach(run, b)
+		check := func(when string) {
+			snap := w.snapshot(b.Ctx())
+			for cid, cl := range snap.Classes {
+				for tid, t := range cl.Toks {
+					sum := new(big.Int)
+					for _, v := range t.Bal {
+						sum.Add(sum, v)
+					}
+					run.Eval(1)
+					if sum.Cmp(t.Supply) != 0 {
+						run.Violation("C15:mt:genesis:balances-do-not-add-up-to-supply:"+gc.name, map[string]any{"genesis": gc.name, "class": cid, "token": tid, "when": when},
+							"chain born from the genesis file %q: balances of %s/%s add up to %s, the recorded supply is %s (%s)", gc.name, cid, tid, sum, t.Supply, when)
+					}
+				}
+			}
+		}
+		check("after the first block")
+		// the last listed holder burns what it holds (at most 8): supply and balance fall together, nothing wraps
+		h := gc.hold[len(gc.hold)-1]
+		amt := h.amt
+		if amt > 8 {
+			amt = 8
+		}
+		acct := b.Acc(h.acc)
+		b.DeliverBlock(time.Second, []rig.Tx{b.Mk(acct, &mtTag{Op: "burn"}, &mttypes.MsgBurnMT{Id: "tok", DenomId: "genesisclass", Amount: amt, Sender: acct.Addr.String()})})
+		check("after a burn")
+	}
+	run.Require("mt-genesis-started:consistent", 1)
 }
